@@ -849,7 +849,10 @@ class DataFrameSchemaBackend(PandasSchemaBackend):
 
                 passed = False
                 message = f"columns '{*subset,}' not unique:\n{failure_cases}"
-                failure_cases = reshape_failure_cases(failure_cases)
+                # null cells of rows that repeat each other are duplicates too
+                failure_cases = reshape_failure_cases(
+                    failure_cases, ignore_na=False
+                )
                 break
         return CoreCheckResult(
             passed=passed,
